@@ -248,16 +248,30 @@ def eval_literals(item):
                     seen.add(k)
                     probs.append((dict(kind="accepted-invalid-size", literal_type=type(lit).__name__), dict(part="literal", literal=repr(lit)),
                                   f"convert_to_bytes({lit!r}) = {got!r}, but the literal denotes no whole non-negative number of bytes"))
-            # Spec must carry the same number
-            try:
-                sp = cubed.Spec(allowed_mem=lit)
-                if sp.allowed_mem != got and "spec" not in seen:
-                    seen.add("spec")
-                    probs.append((dict(kind="spec-differs"), dict(part="literal", literal=repr(lit)), f"Spec(allowed_mem={lit!r}).allowed_mem = {sp.allowed_mem}, convert_to_bytes gives {got}"))
-            except Exception:
-                pass
         else:
             cnt["rejected"] += 1
+        # a Spec must read the literal exactly as convert_to_bytes does - same acceptance, same number - whatever the other
+        # memory setting is (allowed_mem=None means 'not given' and is not a literal)
+        if isinstance(lit, bool):
+            continue
+        for field, kw in (("allowed_mem", dict(allowed_mem=lit)), ("allowed_mem", dict(allowed_mem=lit, reserved_mem=1000)),
+                          ("allowed_mem", dict(allowed_mem=lit, reserved_mem="2kB")), ("reserved_mem", dict(allowed_mem=10 ** 12, reserved_mem=lit))):
+            if field == "reserved_mem" and not lit:
+                continue  # 0, 0.0 and "" all mean 'nothing reserved'
+            cnt["spec_literals"] += 1
+            try:
+                sp = cubed.Spec(**kw)
+                sgot, sok = getattr(sp, field), True
+            except Exception as e:
+                sgot, sok = e, False
+            if sok != ok or (ok and sgot != got):
+                k = ("spec", field, sok, ok)
+                if k not in seen:
+                    seen.add(k)
+                    a = f"= {sgot!r}" if sok else f"raises {type(sgot).__name__}"
+                    b = f"= {got!r}" if ok else f"raises {type(got).__name__}"
+                    probs.append((dict(kind="spec-reads-size-differently", field=field), dict(part="literal", literal=repr(lit)),
+                                  f"Spec({', '.join(f'{x}={y!r}' for x, y in kw.items())}).{field} {a}, but convert_to_bytes({lit!r}) {b}"))
     return cnt, probs
 
 
